@@ -35,8 +35,11 @@ MANIFEST = {
              "makes the equation hold iff the incoming residual is zero (the defect C17-a is proved as a theorem with a witness; the "
              "repaired statement list is proved correct for every residual); frame lemma (an equation depends only on the cells it "
              "reads) and, by induction over an arbitrary schedule, the schedule theorem: every step that is admissible (reads nothing "
-             "that it or a later step writes, is not overwritten) has its equation true in the final data; dates_equations and "
-             "equations_dates are admissible under stated static conditions on the incidence of the model. The model is tied to the "
+             "that it or a later step writes, is not overwritten) has its equation true in the final data; closed-form theorems: "
+             "dates_equations is Admissible for every model that is sequentialised with leads only into input cells, equations_dates "
+             "under the incomparable condition (counterexamples both ways) that rows written by equations are read only from earlier "
+             "equations or own lags; the executable decision admissibleFlags is sound and complete for Admissible; end-to-end theorem "
+             "simulate_all_equations_hold with hypotheses on the model text, span and plan only. The model is tied to the "
              "code on every run: the transform/level/residual/plan formulas and the statement lists of Explanatory.simulate/exogenize "
              "are regenerated from the Python AST (a changed formula re-checks the proofs), the control flow (schedule orders, "
              "_detect_exogenized incl. when_data and Python indexing, NaN propagation) by differential runs against irispie on random "
